@@ -463,6 +463,39 @@ def overrides(case):
             d = diff(c0, c)
             if c.get(sp + "_head_start") != 12345 or d - {sp + "_head_start"}:
                 cx.bad("override_wrong", "%s_head: key %s_head_start=%r, other keys %s" % (sp, sp, c.get(sp + "_head_start"), sorted(d)[:5]), override=sp + "_head")
+    # several overrides of different kinds in one dictionary, in every sort of key order (before or after the option families,
+    # the meat-weight key before or after the head counts): dictionaries that compare equal must give the same constants
+    if not cx.glob:
+        for trial in range(8):
+            sps = rnd.sample(SPECIES, rnd.choice([1, 2, 3]))
+            items = [(sp + "_head", 1000 + 111 * j + trial) for j, sp in enumerate(sps)] + [("kg_meat_per_large_animal", 300.0 + trial)]
+            if rnd.random() < 0.6:
+                items.append(("MINIMUM_PERCENT_FED_BEFORE_NONHUMAN_CONSUMPTION_ALLOWED", 40 + trial))
+            if rnd.random() < 0.4:
+                items.append(("RATIO_STOCKS_UNTOUCHED", 0.25))
+            rnd.shuffle(items)
+            if trial % 2 == 0:
+                # the meat weight first
+                items.sort(key=lambda kv: kv[0] != "kg_meat_per_large_animal")
+            front = rnd.random() < 0.5
+            o = dict(items) if front else {}
+            o.update(copy.deepcopy(base))
+            o.update(dict(items))
+            before = copy.deepcopy(o)
+            cx.n["overrides"] += 1
+            cx.n["combined_overrides"] += 1
+            c, t, _ = cx.call(o)
+            if o != before:
+                cx.bad("caller_options_modified", "combined overrides %s: option dictionary changed by the call" % [k for k, _ in items], override="combined")
+            want = {}
+            for k, v in items:
+                want[k + "_start" if k.endswith("_head") else k] = float(v) if not k.endswith("_head") else v
+            got = {k: c.get(k) for k in want}
+            d = diff(c0, c)
+            if any(got[k] != want[k] for k in want) or d - set(want):
+                cx.bad("override_wrong", "overrides given together in the key order %s (%s the option families): constants %s, expected %s; other keys changed %s" % (
+                    [k for k, _ in items], "before" if front else "after", {k: got[k] for k in want if got[k] != want[k]}, {k: want[k] for k in want if got[k] != want[k]}, sorted(d - set(want))[:4]),
+                    override="combined", order=[k for k, _ in items])
     # out-of-range numeric overrides must be rejected
     for extra in ({"MINIMUM_PERCENT_FED_BEFORE_NONHUMAN_CONSUMPTION_ALLOWED": 101}, {"MINIMUM_PERCENT_FED_BEFORE_NONHUMAN_CONSUMPTION_ALLOWED": -1},
                   {"RATIO_STOCKS_UNTOUCHED": 1.5}, {"CROP_PRODUCTION_MULTIPLIER": 11}, {"GRASSES_PRODUCTION_MULTIPLIER": -0.1}):
